@@ -63,6 +63,8 @@ def main():
         shutil.rmtree(os.path.join(repo, "target"), ignore_errors=True)
         env["VERIF_REPO"] = repo
         env["VERIF_CACHE"] = os.path.join(tmp, "cache")
+        env["VERIF_EVIDENCE"] = os.path.join(tmp, "evidence")
+        env["VERIF_REPLAY"] = os.path.join(tmp, "replay")
         ev = os.path.join(VERIF, "evidence")
         bak = os.path.join(tmp, "evbak")
         if os.path.isdir(ev):
